@@ -11,10 +11,10 @@ extern "C" {
 }
 typedef long double LD;
 
-enum { L_TRAP, L_BELL, L_REVERSED, L_CRUISE, L_NO_CRUISE, L_TA_ZERO, L_TD_ZERO, L_AM_REDUCED, L_OPPOSING_V0, L_CLAMPED, L_RETURN_NONPOS, L_V_ON_LIMIT, L_V1_REWRITTEN, L_UNEQUAL_ACC_DEC, L_REPAIRED };
+enum { L_TRAP, L_BELL, L_REVERSED, L_CRUISE, L_NO_CRUISE, L_TA_ZERO, L_TD_ZERO, L_AM_REDUCED, L_OPPOSING_V0, L_CLAMPED, L_RETURN_NONPOS, L_V_ON_LIMIT, L_V1_REWRITTEN, L_UNEQUAL_ACC_DEC, L_REPAIRED, L_LATTICE };
 static char const *const labels[] = {"trapezoid", "bell", "reversed_travel", "cruise_phase", "no_cruise_phase", "acceleration_phase_empty", "deceleration_phase_empty",
                                      "bell_acceleration_limit_not_reached", "initial_velocity_opposes_travel", "boundary_velocity_clamped", "generator_returned_nonpositive",
-                                     "boundary_velocity_on_limit", "final_velocity_rewritten_by_planner", "trap_unequal_acc_dec_and_speeds", "bell_request_repaired_to_feasible", nullptr};
+                                     "boundary_velocity_on_limit", "final_velocity_rewritten_by_planner", "trap_unequal_acc_dec_and_speeds", "bell_request_repaired_to_feasible", "all_quantities_on_a_coarse_lattice", nullptr};
 static char const *const metrics[] = {"max_limit_ratio_minus_1", "max_continuity_jump_over_tol", "max_derivative_mismatch_over_tol", nullptr};
 static uint8_t const dict[] = {0, 255, 128, 127};
 static vp_info const info = {"C14", "traj", "", labels, metrics, 64, dict, sizeof(dict)};
@@ -183,6 +183,27 @@ static void case_bell(Tape &t, Ctx &cx)
     if (t.u8() % 4 == 0) { p0 = 0; }
     bool o0, o1;
     double v0 = gen_bv(t, cx, vm, dir, o0), v1 = gen_bv(t, cx, vm, dir, o1);
+    if (t.u8() % 3 == 0)
+    {
+        // lattice class: every quantity a small multiple of one step (1, 1/10, 1/8, 1/4). Continuous draws never produce the exact
+        // coincidences between internal quantities (a bisection value hitting a switch-over point, two phase times being equal)
+        // that such round numbers produce all the time
+        static double const steps[] = {1.0, 0.1, 0.125, 0.25};
+        double q = steps[t.u8() % 4];
+        jm = q * (1 + t.u8() % 60);
+        am = q * (1 + t.u8() % 60);
+        vm = q * (1 + t.u8() % 60);
+        dist = q * (1 + t.u8() % 120);
+        p0 = t.coin() ? 0.0 : q * (int(t.u8()) - 128);
+        int nv = int(vm / q + 0.5);
+        v0 = q * (int(t.u8() % unsigned(2 * nv + 1)) - nv);
+        v1 = q * (int(t.u8() % unsigned(2 * nv + 1)) - nv);
+        if (t.u8() % 3 == 0) { v0 = 0; }
+        if (t.u8() % 3 == 0) { v1 = 0; }
+        o0 = v0 * dir < 0;
+        o1 = v1 * dir < 0;
+        cx.label(L_LATTICE);
+    }
     double cv0 = std::fmin(std::fmax(v0, -vm), vm), cv1 = std::fmin(std::fmax(v1, -vm), vm);
     // repair infeasible draws by enlarging the distance (construction, not rejection)
     {
